@@ -11,6 +11,19 @@ accept bound, real EOF / deadline behaviour; every recorded trace is validated b
 EMPTY_SENDS = True
 
 
+def dirty_sources():
+    """Files of the code under test (stcp and the send queue it is built on) that differ from
+    /repo's HEAD at build time: other builders mutate the shared tree, and a rejection must be
+    attributable to the tree that was actually compiled."""
+    import subprocess
+    try:
+        out = subprocess.run(["git", "-C", "/repo", "status", "--porcelain", "--", "stcp", "syncx/pipe/q"],
+                             stdout=subprocess.PIPE, stderr=subprocess.DEVNULL, timeout=30).stdout.decode()
+    except Exception:
+        return []
+    return [ln.strip() for ln in out.splitlines() if ln.strip()]
+
+
 def run(ctx):
     fam = "session"
     ctx.tlc_mc(fam, "Session", "Session_MC.cfg", workers=4, coverage=ctx.thorough)
@@ -23,7 +36,13 @@ def run(ctx):
         ctx.tlc_mc(fam, "Session", "Session_MC_big.cfg", workers=16, timeout=3000, heap="16g")
         ctx.tlc_mc(fam, "Session", "Session_MC3.cfg", workers=16, timeout=3000, heap="16g")
     pdir, plans = ctx.tlc_plans(fam, "Session_Gen", "Session_Gen.cfg", num=ctx.q(200, 2500), depth=60)
+    dirty = dirty_sources()
     binary = ctx.go_build("c16")
+    dirty = sorted(set(dirty + dirty_sources()))
+    if dirty:
+        print("[note] built from a tree whose stcp / syncx/pipe/q sources differ from HEAD: %s" % dirty,
+              flush=True)
+    ctx.extra["sources_differing_from_head_at_build"] = dirty
     steps_f, free_f = ctx.path("steps.ndjson"), ctx.path("free.ndjson")
     ctx.harness(binary, ["-plans", pdir, "-out", steps_f, "-free", free_f, "-seed", ctx.seed,
                          "-rand", ctx.q(60, 1500), "-nfree", ctx.q(40, 500),
